@@ -7,6 +7,7 @@
 #include <set>
 #include <map>
 #include <algorithm>
+#include <errno.h>
 
 namespace sim {
 
@@ -326,6 +327,8 @@ template <class C> struct Exec {
         MgrInst& m = mgr_of(mgr_index);
         call_begin(opi, tag, mgr_index < 0 ? -1 : m.id, fp);
         bool ok = false;
+        // errno at entry is whatever an earlier, unrelated call of the caller left there
+        { static const int kErr[] = {0, ENOMEM, EINVAL, ERANGE, 0, EDOM, ENOMEM, 0}; errno = kErr[((plan.junk >> 7) + (unsigned)opi * 5u + (unsigned)(tag + 3)) & 7]; }
         LIBCALL_RUN({ fn(); }, ok);
         outs_tmp_reqs = g.cur->req_count; outs_tmp_frees = g.cur->free_count; outs_tmp_fired = g.cur->fired;
         call_end();
@@ -394,6 +397,8 @@ template <class C> struct Exec {
     // one ToString call with capacity cap into a fresh buffer; checks the C05 contract. text_out gets the text on success.
     bool tostring_cap(int opi, const Uri* u, int cap, bool with_written, int required, std::string* text_out, int* rc_out) {
         int alloc_chars = cap > 0 ? cap : 0;
+        // a caller that knows the text fits may state a capacity far beyond it ("no limit"): the buffer then really holds required+8
+        if (required >= 0 && cap > required + 4096) alloc_chars = required + 8;
         Guarded gb = guarded_buf((size_t)alloc_chars);
         C* dest = gb.buf;
         int* written = nullptr;
@@ -495,6 +500,31 @@ template <class C> struct Exec {
         d.ever.insert(src.ever.begin(), src.ever.end());
         if (src.owned) d.deps.insert(src_index); else d.deps.insert(src.deps.begin(), src.deps.end());
     }
+
+    // For one call: clear function pointers of a manager table in place (same object, now incomplete) and restore them afterwards.
+    struct BreakGuard {
+        MgrInst* m = nullptr; UriMemoryManager saved; int saved_kind = 0;
+        BreakGuard(Exec& ex, const Op& op, int mgr_index) {
+            if (!op.brk) return;
+            MgrInst& mi = ex.mgr_of(mgr_index);
+            if ((mi.kind != MK_SIM && mi.kind != MK_COMPLETED) || !mi.table) return;
+            m = &mi; saved = *mi.table; saved_kind = mi.kind;
+            set_perm(mi.table, sizeof(UriMemoryManager), P_RW);
+            int k = op.brk & 31; if (!k) k = 1;
+            if (k & 1) mi.table->malloc = nullptr; if (k & 2) mi.table->calloc = nullptr; if (k & 4) mi.table->realloc = nullptr;
+            if (k & 8) mi.table->reallocarray = nullptr; if (k & 16) mi.table->free = nullptr;
+            set_perm(mi.table, sizeof(UriMemoryManager), perm(P_R, RS_CONST_ARG));
+            mi.kind = MK_INCOMPLETE;
+            event("manager m%d broken in place (mask %d)", mi.id, k);
+        }
+        ~BreakGuard() {
+            if (!m) return;
+            set_perm(m->table, sizeof(UriMemoryManager), P_RW);
+            *m->table = saved;
+            set_perm(m->table, sizeof(UriMemoryManager), perm(P_R, RS_CONST_ARG));
+            m->kind = saved_kind;
+        }
+    };
 
     void exec_op(int i);
     void exec_parse(int i, const Op& op, OpOut& o);
